@@ -666,17 +666,21 @@ func (w *worker[T, JobType]) NumIdleWorkers() int {
 }
 
 func (w *worker[T, JobType]) Pause() error {
-	switch s := w.status.Load(); s {
-	case running:
-		vhook("pause.load")
-		w.status.Store(paused)
-	case paused, stopped:
-		return nil
-	default:
-		return ErrNotRunningWorker
+	for {
+		switch s := w.status.Load(); s {
+		case running:
+			vhook("pause.load")
+			// the status may have changed since it was read (e.g. the context listener has stopped
+			// the worker): only a worker that is still running becomes paused
+			if w.status.CompareAndSwap(running, paused) {
+				return nil
+			}
+		case paused, stopped:
+			return nil
+		default:
+			return ErrNotRunningWorker
+		}
 	}
-
-	return nil
 }
 
 func (w *worker[T, JobType]) Stop() error {
@@ -821,20 +825,26 @@ func (w *worker[T, JobType]) NumProcessing() int {
 }
 
 func (w *worker[T, JobType]) Resume() error {
-	if w.IsStopped() {
-		return ErrNotRunningWorker
-	}
+	for {
+		if w.IsStopped() {
+			return ErrNotRunningWorker
+		}
 
-	if w.status.Load() == initiated {
-		return w.start()
-	}
+		if w.status.Load() == initiated {
+			return w.start()
+		}
 
-	if w.IsRunning() {
-		return ErrRunningWorker
-	}
+		if w.IsRunning() {
+			return ErrRunningWorker
+		}
 
-	vhook("resume.check")
-	w.status.Store(running)
+		vhook("resume.check")
+		// the status may have changed since it was read (e.g. the context listener has stopped
+		// the worker): only a worker that is still paused becomes running
+		if w.status.CompareAndSwap(paused, running) {
+			break
+		}
+	}
 	vhook("resume.stored")
 	w.notifyToPullNextJobs()
 
